@@ -86,7 +86,10 @@ def run_check(prop, tier, replay=None):
                 dist[key] = dist.get(key, 0) + 1
             if mod.nontrivial(case, e):
                 nontrivial.add(mod.case_key(case))
-            m = mod.judge(case, g, e)
+            try:
+                m = mod.judge(case, g, e)
+            except Exception as exc:  # a bug of the harness itself: never silently ignored
+                m = {"kind": "harness-error", "detail": "%s: %s" % (type(exc).__name__, exc)}
             if replay:
                 print("replay: case=%s\n  expected=%s\n  got=%s\n  verdict=%s" % (json.dumps(case), e, g, m))
             if m is None:
